@@ -89,7 +89,7 @@ def main():
         "setup_cmd": "/venv/bin/python -B -c \"import sys; sys.path.insert(0,'/repo/src'); import clikit, pastel, crashtest, pylev; print('dsim setup ok', clikit.__file__)\"",
         "hooks": {
             "guard": "CLIKIT_VERIF",
-            "enable": "no source hooks: every seam is a module-attribute swap done by the harness process (progress_bar.time, progress_indicator.time/threading, question.subprocess, crashtest.frame.open, COLUMNS) or a simulator object passed through clikit's own stream interfaces; CLIKIT_VERIF=1 is set by ./check but read by nothing in /repo",
+            "enable": "no source hooks: every seam is a module-attribute swap done by the harness process (progress_bar.time, progress_indicator.time/threading, question.subprocess, crashtest.frame.open, COLUMNS/LINES, and for the terminal-size environment fcntl.ioctl, os.get_terminal_size, os.open/os.close of the controlling terminal, each for the duration of one scenario) or a simulator object passed through clikit's own stream interfaces; CLIKIT_VERIF=1 is set by ./check but read by nothing in /repo",
             "baseline_off_cmd": "/verif/run_baseline.sh",
             "source_commits": [],
             "add_only": True,
